@@ -5,6 +5,8 @@ from bounded.common import Suite, FmtStr, Chunk, fmtstr, cells
 
 LEVEL = "exploration"
 ASSUMPTIONS = [
+    "deductively proved (all strings): a string in which 'ESC[' does not occur comes back from fmtstr / FmtStr.from_str as one unformatted "
+    "run with exactly that text (fmtstr#plain, FmtStr.from_str#plain; copy_with_new_atts through its C14 contract, parse_args inlined)",
     "from_str / parse / peel_off_esc_code / remove_ansi are regex-driven (two competing patterns with lazy prefixes): outside the "
     "deductive subset - both installed solvers leave such string constraints undecided; the property is decided by exhaustive "
     "enumeration of all strings up to a stated length over a 16-symbol escape alphabet, plus real-world samples",
@@ -140,5 +142,16 @@ def bounded(check, tier):
     s.done()
 
 
+def deductive(check, tier):
+    """the clause "text without introducers is returned unchanged and unformatted" for the larger class of strings free of 'ESC[':
+    the real bodies of fmtstr (no formatting arguments) and FmtStr.from_str, all such strings (contracts/formatstring.py)"""
+    import contracts.formatstring as F
+    import contracts.atts  # noqa: F401  (callee contract of copy_with_new_atts)
+    from pyvc.verify import verify
+    for c in (F.from_str_plain, F.fmtstr_plain_body):
+        verify(c, tier, check, prefix="C17")
+
+
 def run(check, tier, seed):
+    deductive(check, tier)
     bounded(check, tier)
